@@ -292,6 +292,19 @@ func init() {
 		}
 		return L(Sym("ok"), Bool(u.IsAbs()), Bool(u.Fragment != ""), Bool(u.User != nil), Bool(u.String() == s))
 	})
+	// cw_readfrom (chunks) budget mode srcerr: CountingWriter.ReadFrom over a destination WITHOUT ReaderFrom
+	// (the copy loop of countingwriter.go), from a source that is no WriterTo and delivers one chunk per
+	// Read; srcerr != 0: the source ends with an error instead of io.EOF.  (accepted n Written ok)
+	regOp("cw_readfrom", func(a []Sx) Sx {
+		fw := &faultWriter{budget: a[1].Int(), short: a[2].Int() != 0}
+		cw := bundle.NewCountingWriter(fw)
+		chunks := [][]byte{}
+		for _, c := range a[0].L {
+			chunks = append(chunks, c.B)
+		}
+		n, err := cw.ReadFrom(&chunkReader{chunks: chunks, fail: a[3].Int() != 0})
+		return L(B(fw.acc), Zi(n), Zi(cw.Written), Bool(err == nil))
+	})
 	regOp("cw_writes", func(a []Sx) Sx {
 		fw := &faultWriter{budget: a[1].Int(), short: a[2].Int() != 0}
 		cw := bundle.NewCountingWriter(fw)
@@ -304,4 +317,25 @@ func init() {
 		}
 		return L(B(fw.acc), Zi(cw.Written), Bool(ok))
 	})
+}
+
+// chunkReader delivers one chunk per Read call (chunks are at most a few KiB) and then io.EOF or an error
+type chunkReader struct {
+	chunks [][]byte
+	fail   bool
+}
+
+func (c *chunkReader) Read(p []byte) (int, error) {
+	for len(c.chunks) > 0 && len(c.chunks[0]) == 0 {
+		c.chunks = c.chunks[1:]
+	}
+	if len(c.chunks) == 0 {
+		if c.fail {
+			return 0, errors.New("source failed")
+		}
+		return 0, io.EOF
+	}
+	n := copy(p, c.chunks[0])
+	c.chunks[0] = c.chunks[0][n:]
+	return n, nil
 }
